@@ -20,6 +20,7 @@ META['level_text'] += ' R3: the structural clauses of the conversion pipeline th
 META["level_note"] = "Trusted: serde_json's Serializer/Deserializer for Value (arrays, strings, numbers), rustc MIR/HIR, tmfacts. Not decided: that convert(parse(x)) is the identity on alias-free input beyond the per-field agreement and the pipeline clauses shown here (same limit as C13)."
 META["technique"] += '; re-run of the conversion-pipeline clauses (C13-S2..S6)'
 META['level_text'] += ' R1 also: the saved file is opened with write+truncate (or File::create), never append: it holds exactly what was serialised now.'
+META['level_text'] += ' R6: parse_layout_from_json refuses a document only for its shape, for a mapping parse_mapping_from_json refuses, or for an undefined alias -- no condition on the list as a whole.'
 META['level_text'] += ' R5: on the path a saved (plain) mapping takes through parse_mapping_from_json, the only rejection that is not the failure of a field parser is the absorbed-modifier check, and that check is a plain membership test of each absorbed key in the trigger\'s modifier list (no state carried from one element to the next), so it cannot refuse a list the converter derived from those modifiers.'
 # --- end additions
 
@@ -382,6 +383,7 @@ def run(ctx):
     ck.analysed["conversion_clauses_rerun"] = len(sub.obligations)
     r4_reader_lists(ctx, ck)
     r5_cross_field_rejections(ctx, ck)
+    r6_layout_level_rejections(ctx, ck)
 
 
 def _absorb_src(ab):
@@ -772,3 +774,83 @@ def _absorbed_rejection(ctx, b, p):
             return False, "the scan's test is not a closure"
         return _membership_closure(ctx, cl[1], negated_expected=(mn != "all"))
     return False, "a refusal of a plain mapping that is neither a field parser's failure nor the absorbed-key membership test: last test %s = %s" % (show(g.a)[:80], g.b)
+
+
+# ---------------------------------------------------------------------------------------------------------------
+# R6: what the reader may refuse at the level of the whole document
+def r6_layout_level_rejections(ctx, ck):
+    """parse_layout_from_json refuses a document only because (a) it is not {"mappings": [...]}, (b) one of its mappings
+    is refused by parse_mapping_from_json (R5), or (c) a mapping uses an alias nobody defines (a saved layout uses
+    none).  Any other refusal is a condition on the LIST -- the converter's output is not known to satisfy it (two
+    shorthand mappings may expand to the same trigger, the list may be empty, ...)."""
+    fn = "layout_parsing_formatting::parse_layout_from_json"
+    b = ctx.body(fn)
+    PM = "layout_parsing_formatting::parse_mapping_from_json"
+    UA = "layout_parsing_formatting::mapping_all_used_aliases"
+    HK = "layout_parsing_formatting::has_exactly_keys"
+
+    def local_calls(t):
+        return {x[1] for x in _subterms(t) if isinstance(x, tuple) and x and x[0] == "call" and isinstance(x[1], str) and x[1] in ctx.F.raw_bodies}
+
+    def is_next(g):
+        return isinstance(g.a, tuple) and g.a[0] == "variantof" and isinstance(g.a[1], tuple) and g.a[1] and g.a[1][0] == "next"
+
+    def classify(g):
+        a = g.a
+        s_ = show(a)
+        if isinstance(a, tuple) and a[0] == "variantof":
+            inner = mir.strip(a[1])
+            if isinstance(inner, tuple) and inner[0] == "call" and inner[1] == PM and g.b == "Err":
+                return "mapping-refused-by-parse_mapping_from_json"
+        if isinstance(a, tuple) and a and a[0] == "in" and g.b is False and UA in local_calls(a[1]):
+            return "alias-not-defined"
+        if isinstance(a, tuple) and a and a[0] == "call" and mir.method_name(a[1]) == "contains" and g.b is False and UA in local_calls(a):
+            return "alias-not-defined"
+        if local_calls(a) <= {HK} and "root" in s_:
+            return "document-shape"
+        return None
+    n = 0
+    classes = set()
+    # refusals inside loops: every exit of a loop that is not its exhaustion
+    for h in sorted(b.loops()):
+        for q in mir.walk_loop_only(b, h):
+            if q.outcome[0] not in ("after-loop", "return"):
+                continue
+            gs = [e for e in q.events if e.kind == "guard"]
+            if gs and is_next(gs[-1]) and gs[-1].b == "None" and q.outcome[0] == "after-loop":
+                continue                # exhaustion
+            own = [g for g in gs if not is_next(g)]
+            if not own:
+                continue                # an inner loop's exit passing through
+            if q.outcome[0] == "return" and not _is_failure(q.outcome[1]):
+                ck.ob("C15-R6", fn, "no-early-Ok-out-of-a-validation-loop", False, detail="bb%d returns %s" % (h, show(q.outcome[1])[:80]))
+                continue
+            # the decisive test is the last one that is not a pattern match on the visited element
+            dec = own[-1]
+            cls = classify(dec)
+            n += 1
+            if cls:
+                classes.add(cls)
+            ck.ob("C15-R6", fn, "a-document-is-refused-only-for-its-shape,a-refused-mapping-or-an-undefined-alias", cls is not None, site="bb%d" % h,
+                  detail=cls or "a loop in parse_layout_from_json is left early when %s = %s: a refusal that depends on the list of mappings as a whole" % (show(dec.a)[:100], dec.b))
+    # refusals outside loops
+    for p_ in mir.walk_function(b):
+        if p_.outcome[0] != "return" or not _is_failure(p_.outcome[1]):
+            continue
+        idx = [i for i, e in enumerate(p_.events) if e.kind == "loopexit"]
+        tail = p_.events[(idx[-1] + 1) if idx else 0:]
+        gs = [e for e in tail if e.kind == "guard"]
+        if idx and not gs:
+            continue                    # the continuation of a loop's early exit (classified above)
+        if not gs:
+            ck.ob("C15-R6", fn, "unconditional-refusal", False)
+            continue
+        cls = classify(gs[-1])
+        n += 1
+        if cls:
+            classes.add(cls)
+        ck.ob("C15-R6", fn, "a-document-is-refused-only-for-its-shape,a-refused-mapping-or-an-undefined-alias", cls == "document-shape" and not idx,
+              detail=cls or "refused when %s = %s" % (show(gs[-1].a)[:100], gs[-1].b))
+    ck.analysed["layout_level_rejections"] = n
+    ck.floor("C15-R6", "layout-level-rejection-sites", n, 3)
+    ck.ob("C15-R6", fn, "the-per-mapping-parser-is-the-one-R5-looks-at", "mapping-refused-by-parse_mapping_from_json" in classes)
